@@ -36,7 +36,10 @@ ASSUMPTIONS = [
 
 _CALIBRATION = {}
 # one setting per configuration option that could plausibly influence the transformed bytecode (marker fields) or is known not to
-HOOKS = ['off', 'default', 'pep526off', 'place_first', 'type_first', 'func_first', 'viol_warn', 'viol_value', 'strategy_o0', 'strategy_on', 'tower']
+HOOKS = ['off', 'default', 'pep526off', 'place_first', 'type_first', 'func_first', 'viol_warn', 'viol_value', 'strategy_o0', 'strategy_on', 'tower',
+         # two registrations in one process: configuration A for the package, configuration B for one of its modules (imported
+         # after a sibling that is hooked under A)
+         'mix:pep526off:default', 'mix:default:pep526off', 'mix:viol_warn:default']
 CHILD = os.path.join(os.path.dirname(os.path.dirname(os.path.abspath(__file__))), 'c16_child.py')
 
 MOD_A = '''import functools
@@ -163,6 +166,12 @@ def _history(draw, tier):
     n = draw(st.integers(2, 5 if tier == 'thorough' else 4))
     # each history alternates between two or three settings so that a setting meets bytecode cached under each other one
     pool = draw(st.lists(st.sampled_from(HOOKS), min_size=2, max_size=3, unique=True))
+    if draw(st.integers(0, 3)) == 0:
+        # one history in four is about a two-registration setting and the plain settings of its two parts
+        mix = draw(st.sampled_from([h for h in HOOKS if h.startswith('mix:')]))
+        pool = [mix, mix.split(':')[1]] + draw(st.lists(st.sampled_from([mix.split(':')[2], 'off']), max_size=1))
+    # a two-registration setting always meets the plain setting of its package part
+    pool += [h.split(':')[1] for h in pool if h.startswith('mix:') and h.split(':')[1] not in pool]
     hooked = [h for h in pool if h != 'off']
     runs = []
     for i in range(n):
